@@ -122,7 +122,48 @@ def ser_rules(ctx, flavours):
             if _exhaustive(F, dec, ML):
                 why2.append('member loop has an early exit')
             inner = {bi: l for bi, l in L.items() if bi != mb and bi in ML['body']}
-            if len(inner) != 1:
+            exts = [(bi, t) for bi, t in calls_in(dec) if callee_name(t).split('::')[-1].rstrip('>') == 'extend' and bi in ML['body'] and strip_payload(dpv.of_operand(t['args'][0])) == edges_v]
+            if not inner and len(exts) == 1:
+                # accepted idiom: edges.extend(<edge iterator of the member>.map(|Edge(u, v, e)| (key(u), key(v), e)))
+                from .core import closure_result
+                xb, xt = exts[0]
+                src = deep_unwrap(dpv.of_operand(xt['args'][1]))
+                cs = term_calls(src)
+                maps = [c for c in cs if c[1] == 'std::iter::Iterator::map']
+                bad_ad = [c[1] for c in cs if c[1].startswith('std::iter::Iterator::') and c[1].split('::')[-1] in ('rev', 'skip', 'take', 'filter', 'step_by', 'skip_while', 'take_while', 'filter_map', 'chain', 'flat_map')]
+                if len(maps) != 1 or bad_ad:
+                    why2.append('edge list is extended with %s' % pretty(src))
+                else:
+                    it = deep_unwrap(maps[0][2][0])
+                    okit = isinstance(it, tuple) and it[0] == 'call' and any(c[2] and deep_unwrap(c[2][0]) == MEM and (c[1] in F.bodies) for c in term_calls(it))
+                    if not okit:
+                        why2.append('edge iterator %s is not built on the member node' % pretty(it))
+                    fp = None
+                    srcs = [c for c in term_calls(it) if c[1] in F.bodies]
+                    for c in srcs:
+                        cb_ = F.bodies[c[1]]
+                        rt_ = F.types[cb_['locals'][0]]
+                        nb = F.bodies.get('<%s as std::iter::Iterator>::next' % rt_.get('p', ''))
+                        if nb is not None:
+                            fp = footprint(F, M, nb)
+                        elif cb_['impl_self_q'] == fl + '::node::Node':
+                            fp = footprint(F, M, cb_)
+                    if fp != {M.OUT}:
+                        why2.append('per member the writer enumerates lists %s: every edge is stored as one OUT half, so only {OUT} lists each edge exactly once' %
+                                    (sorted(M.role(x) for x in fp) if fp else '?'))
+                    cr = closure_result(F, maps[0][2][1], [P2_])
+                    cr = deep_unwrap(cr) if cr is not None else None
+                    exp = ('aggr', 'tuple', (key_of(('f', P2_, '0')), key_of(('f', P2_, '1')), ('f', P2_, '2')))
+                    if cr != exp:
+                        why3.append('edge tuple written is %s, expected (key(u), key(v), e)' % pretty(cr))
+                np_ = [(bi, t) for bi, t in pushes if bi in ML['body']]
+                if len(np_) != 1 or strip_payload(dpv.of_operand(np_[0][1]['args'][0])) != nodes_v:
+                    why5.append('%d node pushes per member into the node list' % len(np_))
+                else:
+                    tv = deep_unwrap(dpv.of_operand(np_[0][1]['args'][1]))
+                    if tv != ('aggr', 'tuple', (key_of(MEM), VAL(MEM))):
+                        why5.append('node tuple written is %s, expected (key, value)' % pretty(tv))
+            elif len(inner) != 1:
                 why2.append('%d edge loops per member' % len(inner))
             else:
                 eb, EL = next(iter(inner.items()))
@@ -266,9 +307,10 @@ def de_rules(ctx, flavours):
         # each lookup's failure produces a custom error
         for q_ in closures:
             pass
-        custom = [b for b in closures if any(callee_name(t).endswith('de::Error::custom') or t['callee'] == 'serde::de::Error::custom' for bi, t in calls_in(b))]
-        if len(custom) < len(gets):
-            why.append('%d lookups but only %d error constructors' % (len(gets), len(custom)))
+        reach_bodies = [F.bodies[q] for q in reader_reach(ctx, (fl,)) if q in F.bodies]
+        custom = [b2 for b2 in reach_bodies if any(callee_name(t).endswith('de::Error::custom') or t['callee'] == 'serde::de::Error::custom' for bi, t in calls_in(b2))]
+        if gets and not custom:
+            why.append('%d lookups but no de::Error::custom(..) constructor is reachable from the reader' % len(gets))
         out.append(Obl('DE1', vs['q'], vs['span'], 'every connect is behind the success of both endpoint lookups; a failed lookup returns Err(custom(..))', not why, '; '.join(why) if why else '%d lookups, %d connect' % (len(gets), len(conn))))
         # DE2: no panic-capable call
         for b in [de, vs] + closures:
@@ -330,7 +372,10 @@ def de_rules(ctx, flavours):
             src_raw = pv.of_operand(l['t']['args'][0])
             if term_mentions(src_raw, lambda z: isinstance(z, tuple) and z and z[0] == 'call' and z[1] == 'serde::de::SeqAccess::next_element'):
                 lists += 1
-                if not term_mentions(src_raw, lambda z: isinstance(z, tuple) and z and z[0] == 'call' and z[1].endswith('Vec::new')):
+                has_default = term_mentions(src_raw, lambda z: isinstance(z, tuple) and z and z[0] == 'call' and (
+                    z[1].endswith('Vec::new') or z[1].split('::')[-1] in ('unwrap_or_default', 'default') or
+                    (z[1].split('::')[-1] in ('unwrap_or', 'unwrap_or_else') and len(z[2]) > 1 and (term_mentions(z[2][1], lambda y: isinstance(y, tuple) and y and y[0] in ('call', 'fn') and str(y[1]).endswith('Vec::new'))))))
+                if not has_default:
                     why.append('a list read from the document has no empty default')
                 if _exhaustive(F, vs, l) and any(y in cfg.can_return() for x, y in _exhaustive(F, vs, l) if not _exit_is_error(F, vs, y)):
                     why.append('a loop over a document list has an early non-error exit')
